@@ -166,7 +166,7 @@ func checkHistory(c *lib.Ctx, sp *rh.Spec, steps []step, evs []histEvent, lv *rh
 		c.Oracle()
 		if !bytes.Equal(e.got, e.fresh) {
 			js.HashA, js.HashB = hex.EncodeToString(e.got), hex.EncodeToString(e.fresh)
-			c.Fail("postbuild-hash-stale", fmt.Sprintf("RuleHash(runtime=%v, postBuild=%v) after the build changed %q returned %x, not the hash %x of the target's current attributes",
+			c.Fail("rule-hash-not-of-current-attributes", fmt.Sprintf("RuleHash(runtime=%v, postBuild=%v) after the build changed %q returned %x, not ruleHash %x of the target's current attributes",
 				e.rt, e.pb, e.attr, e.got, e.fresh), js)
 			return
 		}
